@@ -457,7 +457,7 @@ func (g G) Statement(kind string, depth int) []*Node {
 		for i := 0; i < ncase; i++ {
 			op := pick(c, "case.op"+strconv.Itoa(i), "==", "~")
 			label := "c" + strconv.Itoa(i)
-			if i > 0 && c.Bool("case.samelabel"+strconv.Itoa(i)) {
+			if i == 1 && c.Bool("case.samelabel"+strconv.Itoa(i)) {
 				// the same label text as the first case, under the other operator: not a duplicate
 				label = "c0"
 				if cases[0].Child("Test").Str("Operator") == op {
